@@ -10,6 +10,7 @@ import (
 	"fmt"
 	"os"
 	"path/filepath"
+	"time"
 
 	cs "github.com/lianxiangcloud/linkchain/consensus"
 	"github.com/lianxiangcloud/linkchain/types"
@@ -272,7 +273,7 @@ func lookAlikeProbe(c *core.Ctx, base string) {
 			if found {
 				c.Violate("search/embedded-record-after-length-flip",
 					fmt.Sprintf("a block part whose bytes embed a well-formed EndHeightMessage{%d} record at payload offset %d; byte %d of the log (length field of the block part record, %d -> %d) altered: SearchForEndHeight(%d, ignore corruption=%v) reports the marker found although it was never written", fake, off, pos, L, off, fake, ign),
-					map[string]interface{}{"records": rl.Kind, "payload_len": L, "embedded_at": off, "flipped_byte": pos, "mask": 1, "results": out})
+					map[string]interface{}{"kind": "lookalike", "records": rl.Kind, "payload_len": L, "embedded_at": off, "flipped_byte": pos, "mask": 1, "results": out})
 			}
 		}
 		result = fmt.Sprintf("%v", out)
@@ -284,4 +285,89 @@ func encodePayload(msg cs.WALMessage) []byte {
 	var b bytes.Buffer
 	cs.NewWALEncoder(&b).Encode(&cs.TimedWALMessage{Time: nominalTime, Msg: msg})
 	return b.Bytes()[8:]
+}
+
+// tickerRotationProbe lets the group's OWN ticker rotate the head (processTicks ->
+// checkHeadSizeLimit -> RotateFile, every 5 s) while headBuf holds the rest of a record
+// bufio has split: the production path to a file that starts inside a record, without the
+// harness calling RotateFile. Both markers of the undamaged log must be found.
+func tickerRotationProbe(c *core.Ctx, base string) {
+	dir := filepath.Join(base, "ticker")
+	os.MkdirAll(dir, 0700)
+	defer os.RemoveAll(dir)
+	result := map[string]interface{}{}
+	defer func() {
+		if r := recover(); r != nil {
+			result["panic"] = fmt.Sprint(r)
+		}
+		c.SetExtra("ticker_rotation_probe", result)
+	}()
+	w, err := cs.NewWAL(filepath.Join(dir, "wal"))
+	if err != nil {
+		result["error"] = err.Error()
+		return
+	}
+	if err := w.Start(); err != nil {
+		result["error"] = err.Error()
+		return
+	}
+	w.Group().SetHeadSizeLimit(4096)
+	in := &instance{Seed: c.Seed}
+	x := mkMsg(0, 2, 1, c.Seed) // a vote from a peer
+	filler, ok := fillerOfRecSize(headBufSize-40, 1, 1, c.Seed, time.Now())
+	if !ok {
+		result["error"] = "no filler"
+		return
+	}
+	w.Write(filler) // peer block part: buffered
+	w.Write(x)      // buffer runs full after 40 bytes of this record
+	rotated := false
+	for i := 0; i < 80 && !rotated; i++ { // the group checks its limits every 5 s
+		time.Sleep(100 * time.Millisecond)
+		rotated = w.Group().MaxIndex() > 0
+	}
+	w.WriteSync(cs.EndHeightMessage{Height: 1})
+	w.Write(mkMsg(4, 4, 2, c.Seed))
+	w.Stop()
+	w.Group().Head.Close()
+	result["rotated_by_ticker"] = rotated
+	if !rotated {
+		c.Drift("ticker rotation probe: the group did not rotate its head within 8 s")
+		return
+	}
+	rl := &realLog{Recs: []int{0, -1, -1, 1, -1}, Inst: in, Kind: []string{"end-height", "block-part-filler", "vote-prevote", "end-height", "timeout"}}
+	for _, m := range []cs.WALMessage{cs.EndHeightMessage{Height: 0}, filler, x, cs.EndHeightMessage{Height: 1}, mkMsg(4, 4, 2, c.Seed)} {
+		rl.Written = append(rl.Written, cs.VerifWALDescribe(m))
+	}
+	if err := rl.load(dir); err != nil {
+		result["error"] = err.Error()
+		c.Drift("ticker rotation probe: %v", err)
+		return
+	}
+	result["file_sizes"] = rl.FileSize
+	result["record_starts"] = rl.RecStart
+	result["file_ends_in_cells"] = rl.Bounds
+	result["a_file_starts_inside_a_record"] = rl.misaligned()
+	rd, err := newReader(filepath.Join(base, "ticker-r"), rl)
+	if err != nil {
+		result["error"] = err.Error()
+		return
+	}
+	defer rd.close()
+	ro, err := rd.observe(dcase{Kind: "none"}, rl.Stream, []uint64{0, 1}, false)
+	if err != nil {
+		result["error"] = err.Error()
+		return
+	}
+	var out []string
+	for _, s := range ro.Search {
+		out = append(out, fmt.Sprintf("h=%d ignore_corruption=%v: %s %s", s.H, s.Ign, s.Res, s.Err))
+		if s.Res != "found" {
+			c.Violate("search/missed-marker/rotation-inside-record",
+				fmt.Sprintf("undamaged log rotated by the group's own ticker while headBuf held the rest of a split record: SearchForEndHeight(%d, ignore corruption=%v) = %s %s; files %v bytes, record starts %v", s.H, s.Ign, s.Res, s.Err, rl.FileSize, rl.RecStart),
+				map[string]interface{}{"kind": "ticker", "calls": "NewWAL, Start, Group().SetHeadSizeLimit(4096), Write(block part filling headBuf up to 40 bytes before its end), Write(vote), <ticker rotates>, WriteSync(EndHeight{1}), Write(timeout), Stop", "file_sizes": rl.FileSize, "record_starts": rl.RecStart, "search": out})
+		}
+	}
+	result["search"] = out
+	result["strict_reader"] = seqString(ro.Strict)
 }
